@@ -60,6 +60,9 @@ fn main() {
         "buildhash" if args.len() >= 5 => {
             std::process::exit(checks::c11::buildhash_main(&args[2..]));
         }
+        "extract-as" if args.len() >= 5 => {
+            std::process::exit(checks::c12::extract_as_main(&args[2..]));
+        }
         "selftest" => {
             std::process::exit(checks::selftest());
         }
